@@ -738,6 +738,9 @@ func (d *docSpec) features(c pageCfg) []string {
 	for _, v := range d.Devs {
 		set[menu[v.D].Name] = true
 		set[menu[v.D].Name+">"+kindName[d.Blocks[v.Slot].Kind]] = true
+		if menu[v.D].Name == "in-float" && d.slotHas(v.Slot, "columns") {
+			set["in-float-in-columns"] = true // a float that a column break may split, on any page height
+		}
 	}
 	if c.H == 0 {
 		set["single-page"] = true
